@@ -762,6 +762,68 @@ def driveIS (args : List String) : String :=
     ISX.runScript (argVal kind "kind") (if o.isEmpty then [] else o.splitOn ";")
   | _ => "bad-op"
 
+/-! ### HTTP server stream scripts: `HttpServerStream.step` is deterministic, the driver replays the
+    handler's operations and prints every result and the whole wire. -/
+namespace HSX
+open HttpServerStream
+
+def sortNats (xs : List Nat) : List Nat := (xs.toArray.qsort (· < ·)).toList
+def showIds (xs : List Nat) : String := "+".intercalate ((sortNats xs).map toString)
+
+def parseReq (s : String) : Option (List ReqItem) :=
+  if s == "-" then some [] else
+  (s.splitOn ",").mapM fun it =>
+    if it == "cut" || it == "cutp" || it == "cuth" then some ReqItem.cut
+    else match (it.drop 1).toString.toNat? with
+      | some n => if it.startsWith "d" then some (.data n true) else if it.startsWith "x" then some (.data n false) else none
+      | none => none
+
+def parseErr (a : String) : Option (Option InprocStream.HErr) :=
+  if a == "nil" then some none
+  else if a == "plain" then some (some .plain)
+  else if a == "ctx:canceled" then some (some (.ctx .canceled))
+  else if a == "ctx:deadline" then some (some (.ctx .deadline))
+  else if a.startsWith "status:" then (a.drop 7).toString.toNat?.map fun c => some (.status c)
+  else none
+
+def parseOp (op : String) : Option Act :=
+  match op.splitOn ":" with
+  | ["recv"] => some .recv
+  | ["break"] => some .breakConn
+  | ["sethdr", n] => n.toNat?.map .setHeader
+  | ["sendhdr", n] => n.toNat?.map .sendHeader
+  | ["settlr", n] => n.toNat?.map .setTrailer
+  | ["send", n, e] => n.toNat?.map fun k => .send k (e == "1")
+  | "ret" :: rest => (parseErr (":".intercalate rest)).map .ret
+  | _ => none
+
+def showOut : Out → String
+  | .head md => s!"H[{showIds md}]"
+  | .data m => s!"D{m}"
+  | .trailer c md => s!"T{c}[{showIds md}]"
+
+def showR : InprocStream.Res → String
+  | .ok => "ok" | .msg m => s!"msg:{m}" | .eof => "eof" | .status c => s!"status:{c}" | .plainErr => "plain"
+  | _ => "?"
+
+def dash (s : String) : String := if s.isEmpty then "-" else s
+
+def runScript (cs : Bool) (req : String) (ops : List String) : String :=
+  match parseReq req, ops.mapM parseOp with
+  | some items, some acts =>
+    (match run (init cs items) acts with
+     | some (s, rs) => s!"res={dash (",".intercalate (rs.map showR))} wire={dash (",".intercalate (s.wire.map showOut))}"
+     | none => "model-disabled")
+  | _, _ => "bad-op"
+end HSX
+
+def driveHS (args : List String) : String :=
+  match args with
+  | [cs, req, ops] =>
+    let o := argVal ops "ops"
+    HSX.runScript (argVal cs "cs" == "1") (argVal req "req") (if o == "-" then [] else o.splitOn ";")
+  | _ => "bad-op"
+
 def dispatch (line : String) : String :=
   match (line.splitOn " ").filter (· ≠ "") with
   | "C14" :: rest => driveC14 rest
@@ -778,6 +840,7 @@ def dispatch (line : String) : String :=
   | "C18" :: rest => driveC18 rest
   | "IS" :: rest => driveIS rest
   | "HC" :: rest => driveHC rest
+  | "HS" :: rest => driveHS rest
   | "C03" :: rest => driveC03 rest
   | "IU" :: rest => driveIU rest
   | _ => "bad-op"
